@@ -71,6 +71,14 @@ fn doc_strategy() -> impl Strategy<Value = String> {
             }
             gen::svg_root(kids).to_xml()
         }),
+        // everything on one line, without a final newline: the output's last line is longer than any line buffer
+        1 => (20usize..300).prop_map(|n| {
+            let mut kids = Vec::new();
+            for i in 0..n {
+                kids.push(XEl::new("rect").a("xy", format!("{} {}", (i % 20) * 12, (i / 20) * 12)).a("wh", "10").a("class", "d-fill-lightblue"));
+            }
+            gen::svg_root(kids).to_xml_compact()
+        }),
         1 => Just("<rect wh=\"5\" text=\"fragment\"/>".to_string()),
     ]
 }
